@@ -13,7 +13,7 @@ RULE = ('smooth/median: every array over {0,1,3}^n (n<=N) x every width x flags;
         'x every per-axis target incl. inadmissible ones x sample. A case is non-trivial when the oracle result differs '
         'from the plain input (smoothing/median changes something, uniq has >1 run or a non-identity index, rebin changes shape or must raise). '
         'Distinct = distinct (function, input, arguments) tuples.')
-ASSUMPTIONS = ['values are small integers stored as float64 so that window sums are exact; division compared to 1e-12',
+ASSUMPTIONS = ['smooth is also run with one extreme sample (1e18, +-inf, nan) among ordinary ones; uniq also on float data scaled to 1e-300..1e17', 'values are small integers stored as float64 so that window sums are exact; division compared to 1e-12',
                'widths (made odd) do not exceed the array length; medians use odd widths only',
                'integer-input averaging in rebin is outside the claim (the repository marks it xfail)']
 
@@ -103,6 +103,8 @@ def tasks(tier):
         t.append({'f': 'smooth', 'n': n})
         t.append({'f': 'median1', 'n': n})
     t.append({'f': 'smoothperm', 'n': 8 if T else 6})
+    for n in (5, 6, 7, 8) if T else (5, 6, 7):
+        t.append({'f': 'smoothx', 'n': n})
     t.append({'f': 'median2', 'shape': (3, 3), 'first': None, 'alpha': [0, 1, 2]})
     t.append({'f': 'median2', 'shape': (4, 4), 'first': None, 'alpha': [0, 1]})
     for shape in ([(3, 4), (4, 3)] if T else [(3, 4)]):
@@ -127,7 +129,12 @@ def tasks(tier):
 def _close(a, b, tol=1e-12):
     a = np.asarray(a, dtype=float)
     b = np.asarray(b, dtype=float)
-    return a.shape == b.shape and bool(np.all(np.abs(a - b) <= tol * (1 + np.abs(b))))
+    if a.shape != b.shape:
+        return False
+    with np.errstate(invalid='ignore'):
+        same = (a == b) | (np.isnan(a) & np.isnan(b))
+        near = np.abs(a - b) <= tol * (1 + np.abs(b))
+    return bool(np.all(same | (np.isfinite(a) & np.isfinite(b) & near)))
 
 
 def check_case(case):
@@ -136,13 +143,14 @@ def check_case(case):
     f = case['f']
     bad = []
     if f == 'smooth':
+        case = dict(case, x=[float(v) for v in case['x']])
         sig = np.array(case['x'], dtype=float)
         keep = sig.copy()
         got = pydl.smooth(sig, case['w'], edge_truncate=case['trunc'])
         exp = o_smooth(case['x'], case['w'], case['trunc'])
         if not _close(got, exp):
             bad.append(('smooth:value', 'got %s expected %s' % (got.tolist(), exp)))
-        if not np.array_equal(sig, keep):
+        if sig.tobytes() != keep.tobytes():
             bad.append(('smooth:input-modified', ''))
     elif f == 'median':
         arr = np.array(case['x'], dtype=float)
@@ -164,6 +172,8 @@ def check_case(case):
             bad.append(('median:running2d', 'got %s expected %s' % (got.tolist(), exp)))
     elif f == 'uniq':
         arr = np.array(case['x'], dtype=case['dtype'])
+        if case.get('scale'):
+            arr = arr * np.array(case['scale'], dtype=case['dtype'])
         if case.get('index') is None:
             got = pydl.uniq(arr)
             exp = o_uniq(case['x'])
@@ -246,6 +256,20 @@ def run_task(task):
                     _do(acc, {'f': 'median', 'x': x, 'even': even}, len(set(x)) > 1)
                 for w in range(1, n + 1, 2):
                     _do(acc, {'f': 'median1', 'x': x, 'w': w}, o_median1(x, w) != x)
+    elif f == 'smoothx':
+        # one extreme sample (huge, infinite, not-a-number) among ordinary ones: every point whose window does not contain it
+        # must still be the plain mean of its window
+        n = task['n']
+        for base in itertools.product((1, 3), repeat=n):
+            for pos in range(n):
+                for v in ('1e18', 'inf', '-inf', 'nan'):
+                    x = [str(b) for b in base]
+                    x[pos] = v
+                    for w in (3, 5):
+                        if w > n:
+                            continue
+                        for trunc in (False, True):
+                            _do(acc, {'f': 'smooth', 'x': x, 'w': w, 'trunc': trunc}, True)
     elif f == 'smoothperm':
         n = task['n']
         for x in itertools.permutations(range(n)):
@@ -268,6 +292,8 @@ def run_task(task):
         for x in itertools.combinations_with_replacement((0, 1, 2), n):
             for dt in ('int64', 'float64', 'int16'):
                 _do(acc, {'f': 'uniq', 'x': list(x), 'dtype': dt, 'index': None}, len(set(x)) > 1)
+            for dt, scale in (('float64', 1e-17), ('float64', 1e-300), ('float32', 1e-10), ('float64', 1e17)):
+                _do(acc, {'f': 'uniq', 'x': list(x), 'dtype': dt, 'index': None, 'scale': scale}, len(set(x)) > 1)
     elif f == 'uniqidx':
         n = task['n']
         for x in itertools.product((0, 1, 2), repeat=n):
@@ -277,6 +303,9 @@ def run_task(task):
                     continue
                 _do(acc, {'f': 'uniq', 'x': list(x), 'dtype': 'int64', 'index': list(perm)},
                     list(perm) != list(range(n)) or len(set(x)) > 1)
+                if n <= 4:
+                    _do(acc, {'f': 'uniq', 'x': list(x), 'dtype': 'float64', 'index': list(perm), 'scale': 1e-17},
+                        list(perm) != list(range(n)) or len(set(x)) > 1)
     elif f == 'rebin':
         shape = task['shape']
         for d in itertools.product(*[targets(s) for s in shape]):
